@@ -327,7 +327,8 @@ class ReachingDefs:
     def defs_of(self, name_node: ast.Name) -> frozenset:
         return self.use_defs.get(id(name_node), frozenset())
 
-    def derives(self, expr: ast.AST, max_depth: int = 40, stop=None, value_flow: bool = False) -> "Derivation":
+    def derives(self, expr: ast.AST, max_depth: int = 40, stop=None, value_flow: bool = False,
+                call_summary=None) -> "Derivation":
         """Transitive closure: every Def and every expression node the value of `expr`
         may be computed from."""
         seen_defs: Set[int] = set()
@@ -347,6 +348,12 @@ class ReachingDefs:
                 for pd in getattr(d, "prev", ()):
                     push_def(pd, depth + 1)
             elif d.value is not None:
+                if call_summary is not None and d.kind == "unpack" and isinstance(d.value, ast.Call) and d.slot:
+                    args = call_summary(d.value, d.slot)
+                    if args is not None:
+                        for a in args:
+                            work.append((a, depth + 1))
+                        return
                 work.append((d.value, depth + 1))
 
         while work:
